@@ -37,7 +37,7 @@ class XLFormula(XLType):
                     and (token.tvalue not in self.terms)
             ):
                 # Make sure we have a full address.
-                term = token.tvalue.replace('$', '')
+                term = utils.strip_absolute_markers(token.tvalue)
                 if '!' not in term:
                     term = f'{self.sheet_name}!{term}'
                 self.terms.append(term)
